@@ -27,8 +27,9 @@ type State struct {
 	loc   *time.Location
 	now   int64
 
-	Out        []byte // bytes accepted by the sink
-	sinkFailed bool
+	Out               []byte // bytes accepted by the sink
+	sinkFailed        bool
+	sinkTransientDone bool
 
 	// recorded
 	Events      []string
@@ -643,8 +644,11 @@ func (st *State) SinkWrite(p []byte) (int, error) {
 	plan := st.W.Sink
 	sinkErr := func() error {
 		e := syscall.ENOSPC
-		if plan.Kind == "EPIPE" {
+		switch plan.Kind {
+		case "EPIPE":
 			e = syscall.EPIPE
+		case "EAGAIN":
+			e = syscall.EAGAIN
 		}
 		return &fs.PathError{Op: "write", Path: "/dev/stdout", Err: e}
 	}
@@ -653,7 +657,10 @@ func (st *State) SinkWrite(p []byte) (int, error) {
 			st.Stats.SinkFirstFailInWrite = st.Stats.SinkWrites
 		}
 		st.Stats.SinkFaultFired = true
-		st.sinkFailed = true
+		// EAGAIN is transient (a terminal switched to non-blocking mode whose reader fell behind):
+		// the write that crosses the offset fails once, later writes are accepted again
+		st.sinkFailed = plan.Kind != "EAGAIN"
+		st.sinkTransientDone = true
 		err := sinkErr()
 		st.event("write n=%d/%d err=%v", n, len(p), err)
 		return n, err
@@ -661,7 +668,7 @@ func (st *State) SinkWrite(p []byte) (int, error) {
 	if st.sinkFailed {
 		return fail(0)
 	}
-	if plan.FailAt >= 0 && len(st.Out)+len(p) > plan.FailAt {
+	if plan.FailAt >= 0 && len(st.Out)+len(p) > plan.FailAt && !st.sinkTransientDone {
 		n := 0
 		if plan.Short {
 			n = plan.FailAt - len(st.Out)
